@@ -1,6 +1,14 @@
 """C04 -- adoption, release and creation obey the ControllerRef rules."""
-from props import sync_level
+from props import sync_level, COMPOSITE, DECORATOR
 from plan_own import OWN_PLAN
+import fam_conv
+
+# the label gate (a desired child that would not satisfy the selector) lives in the Conv family
+PLAN = dict(OWN_PLAN)
+PLAN["pkgs"] = {"composite": COMPOSITE, "decorator": DECORATOR}
+_gate = lambda raw, sid: fam_conv.convert(raw, sid) if raw["prog"] == "badlabel" or raw["gensel"] else None
+PLAN["beh"] = {"quick": OWN_PLAN["beh"]["quick"] + [("MC_Conv", "Beh_Conv_t.cfg", _gate, 300)],
+               "thorough": OWN_PLAN["beh"]["thorough"] + [("MC_Conv", "Beh_Conv_t.cfg", _gate, 0)]}
 
 MANIFEST = dict(
     text="Same machinery as C02 with the ControllerRef monitors (C04_AdoptOnlyIf, C04_ReleaseShape, C04_OthersKept, "
@@ -11,4 +19,4 @@ MANIFEST = dict(
 
 
 def run(scr, tier, replay_file):
-    return sync_level(scr, tier, "C04", "C04_", OWN_PLAN, replay_file)
+    return sync_level(scr, tier, "C04", "C04_", PLAN, replay_file)
